@@ -34,6 +34,11 @@ pub enum Delivery {
     CraftedNotStruct,
     CraftedWrongCounter(u32),
     CraftedWrongRole,
+    /// to the device: a VALID DeviceRequest (request spec i) as a third-party reader may encode it — member names as
+    /// indefinite-length text strings, non-minimal heads — correctly encrypted with the next counter
+    CraftedForeignRequest(usize),
+    /// to the device: a map whose member names are BYTE strings spelling the DeviceRequest names: CBOR, not a DeviceRequest
+    CraftedBytesKeyed,
 }
 
 #[derive(Debug, Clone)]
@@ -118,8 +123,12 @@ impl World {
         }
         let specs = request_specs();
         // non-empty registries with BOTH purposes on each side, so that a serialised session carries trust anchors
-        let rdr_reg = sess::registry(vec![(pki.iaca.clone(), TrustPurpose::Iaca), (pki.reader_ca.clone(), TrustPurpose::ReaderCa)]);
-        let dev_reg = sess::registry(vec![(pki.reader_ca.clone(), TrustPurpose::ReaderCa), (pki.iaca.clone(), TrustPurpose::Iaca)]);
+        // ... and, listed FIRST, a previous root of the same authority (same subject name, another key): two anchors
+        // of one purpose with one subject, of which only the second anchors the certificates in use
+        let old_iaca = crate::pki::root_cert(&SigningKey::random(rng), "CN=Test IACA,C=US", 8);
+        let old_reader_ca = crate::pki::root_cert(&SigningKey::random(rng), "CN=Test Reader CA,C=US", 9);
+        let rdr_reg = sess::registry(vec![(old_iaca.clone(), TrustPurpose::Iaca), (pki.iaca.clone(), TrustPurpose::Iaca), (pki.reader_ca.clone(), TrustPurpose::ReaderCa)]);
+        let dev_reg = sess::registry(vec![(old_reader_ca, TrustPurpose::ReaderCa), (pki.reader_ca.clone(), TrustPurpose::ReaderCa), (old_iaca, TrustPurpose::Iaca), (pki.iaca.clone(), TrustPurpose::Iaca)]);
         let e = sess::establish(sess::documents_of(mdocs.clone()), None, &specs[0], rdr_reg, dev_reg)
             .expect("establish");
         // a parallel session whose messages serve as "foreign" deliveries
@@ -272,7 +281,8 @@ impl World {
                 Some(x) => x,
                 None => garbage,
             },
-            Delivery::CraftedNotCbor | Delivery::CraftedNotStruct | Delivery::CraftedWrongCounter(_) | Delivery::CraftedWrongRole => {
+            Delivery::CraftedNotCbor | Delivery::CraftedNotStruct | Delivery::CraftedWrongCounter(_) | Delivery::CraftedWrongRole
+            | Delivery::CraftedForeignRequest(_) | Delivery::CraftedBytesKeyed => {
                 // harness-made ciphertexts under the right direction key
                 let (key, kid, recv_ctr) = if to_device {
                     (keys.sk_reader.clone(), 0u64, keys.reader_ctr)
@@ -284,6 +294,23 @@ impl World {
                     Delivery::CraftedNotCbor => (recv_ctr as u32 + 1, !to_device, vec![0xff, 0x00, 0x1c], arr(vec![uint(if to_device { 1 } else { 4 })])),
                     Delivery::CraftedNotStruct => (recv_ctr as u32 + 1, !to_device, vec![0x83, 0x01, 0x02, 0x03], arr(vec![uint(if to_device { 2 } else { 4 })])),
                     Delivery::CraftedWrongCounter(off) => (recv_ctr as u32 + 2 + off, !to_device, vec![0xa0], arr(vec![uint(if to_device { 2 } else { 4 })])),
+                    Delivery::CraftedForeignRequest(i) if to_device => {
+                        let i = i % self.req_specs.len();
+                        let els: Vec<(Value, Value)> = self.req_specs[i].iter().map(|(ns, ids)| (Value::Text(ns.clone()), Value::Map(ids.iter().map(|id| (Value::Text(id.clone()), Value::Bool(false))).collect()))).collect();
+                        let items = crate::runner::to_bytes(&Value::Map(vec![(Value::Text("docType".into()), Value::Text(MDL.into())), (Value::Text("nameSpaces".into()), Value::Map(els))]));
+                        let itext = |t: &str| -> Vec<u8> { let b = t.as_bytes(); let mut v = vec![0x7f, 0x60 + (b.len() / 2) as u8]; v.extend(&b[..b.len() / 2]); v.push(0x60 + (b.len() - b.len() / 2) as u8); v.extend(&b[b.len() / 2..]); v.push(0xff); v };
+                        let mut pt = vec![0xb8, 0x02];                       // map(2), one-byte head
+                        pt.extend(itext("version")); pt.extend([0x63, b'1', b'.', b'0']);
+                        pt.extend(itext("docRequests")); pt.extend([0x98, 0x01, 0xa1]);
+                        pt.extend(itext("itemsRequest")); pt.extend([0xd8, 0x18, 0x59, (items.len() >> 8) as u8, (items.len() & 0xff) as u8]); pt.extend(&items);
+                        (recv_ctr as u32 + 1, false, pt, arr(vec![uint(0), uint(i as u64)]))
+                    }
+                    Delivery::CraftedBytesKeyed if to_device => {
+                        let inner = crate::runner::to_bytes(&Value::Map(vec![(Value::Text("docType".into()), Value::Text(MDL.into())), (Value::Text("nameSpaces".into()), Value::Map(vec![(Value::Text(NS.into()), Value::Map(vec![(Value::Text("family_name".into()), Value::Bool(false))]))]))]));
+                        let v = Value::Map(vec![(Value::Bytes(b"version".to_vec()), Value::Text("1.0".into())),
+                            (Value::Bytes(b"docRequests".to_vec()), Value::Array(vec![Value::Map(vec![(Value::Bytes(b"itemsRequest".to_vec()), Value::Tag(24, Box::new(Value::Bytes(inner))))])]))]);
+                        (recv_ctr as u32 + 1, false, crate::runner::to_bytes(&v), arr(vec![uint(2)]))
+                    }
                     _ => (recv_ctr as u32 + 1, to_device, vec![0xa0], arr(vec![uint(if to_device { 2 } else { 4 })])),
                 };
                 let iv = iso_iv(from_device_id, ctr);
@@ -550,7 +577,9 @@ pub fn random_delivery(rng: &mut StdRng, adversarial: f64) -> Delivery {
     if !rng.gen_bool(adversarial) {
         return Delivery::Latest;
     }
-    match rng.gen_range(0..12) {
+    match rng.gen_range(0..14) {
+        12 => Delivery::CraftedForeignRequest(rng.gen_range(0..3)),
+        13 => Delivery::CraftedBytesKeyed,
         0 => Delivery::Replay(rng.gen_range(0..8)),
         1 => Delivery::Garbage,
         2 => Delivery::NoData,
